@@ -840,6 +840,48 @@ func (o *obs) corpus() {
 	o.quad(a, b, cc, d, "corpus stableSign.underflow")
 }
 
+// twinAttack: law_sign_peq and law_refdir_ne on the implementation. RobustSign must not
+// distinguish == points (+0 / -0 twins), in every argument position and through every stage
+// (the exact stage sorts with Cmp and perturbs by rank); referenceDir(p) is never == p.
+func (o *obs) twinAttack(pool []s2.Point) {
+	c, rng := o.c, o.rng
+	for _, p := range pool {
+		if r := s2.VerifC03ReferenceDir(p); r == p {
+			c.Violate("referenceDir.same-point", "referenceDir(p) == p", map[string]interface{}{"p": p.Vector})
+		}
+		if p.X != 0 && p.Y != 0 && p.Z != 0 {
+			continue
+		}
+		t := p
+		if t.X == 0 && rng.Bool() {
+			t.X = -t.X
+		}
+		if t.Y == 0 && rng.Bool() {
+			t.Y = -t.Y
+		}
+		if t.Z == 0 {
+			t.Z = -t.Z
+		}
+		if key(t) == key(p) {
+			continue
+		}
+		c.Class("twin:+-0 pair tested")
+		for k := 0; k < 6; k++ {
+			a, b := pool[rng.Intn(len(pool))], pool[rng.Intn(len(pool))]
+			if k%2 == 0 { // exactly coplanar partners: forces the symbolic perturbation
+				a = s2.Point{Vector: r3.Vector{X: p.X, Y: p.Y, Z: p.Z}.Mul(-1)}
+			}
+			c.Eval("tw"+key(a)+key(b)+key(p), true)
+			if s2.RobustSign(a, b, p) != s2.RobustSign(a, b, t) || s2.RobustSign(p, a, b) != s2.RobustSign(t, a, b) || s2.RobustSign(a, p, b) != s2.RobustSign(a, t, b) {
+				c.Violate("RobustSign.twin", "RobustSign distinguishes a point from its +-0 twin", map[string]interface{}{"a": a.Vector, "b": b.Vector, "p": p.Vector, "bits": [][]string{coords(a), coords(b), coords(p), coords(t)}})
+			}
+			if s2.CrossingSign(a, b, p, pool[0]) != s2.CrossingSign(a, b, t, pool[0]) {
+				c.Violate("CrossingSign.twin", "CrossingSign distinguishes a point from its +-0 twin", replayQuad(a, b, p, pool[0]))
+			}
+		}
+	}
+}
+
 func run(c *vkit.Collector, rng *vkit.Rng, budget int) {
 	o := &obs{c: c, rng: rng, or: &oracle{}}
 	o.corpus()
@@ -884,6 +926,7 @@ func run(c *vkit.Collector, rng *vkit.Rng, budget int) {
 			cand = cand[:6]
 		}
 		o.acvCycle(pool[bidx], cand)
+		o.twinAttack(pool)
 	}
 	for k := 0; k < 1500*budget; k++ {
 		o.tangentAttack()
